@@ -57,7 +57,7 @@ pub fn session(rng: &mut Rng, kmax: usize) -> (Vec<Item>, Vec<String>) {
     let n = 5 + rng.below(8);
     let mut have_saved = false;
     for _ in 0..n {
-        let t = rng.below(23);
+        let t = rng.below(24);
         let val = rng.range(1, 99);
         let d = rng.below(12);
         match t {
@@ -199,6 +199,13 @@ pub fn session(rng: &mut Rng, kmax: usize) -> (Vec<Item>, Vec<String>) {
                 };
                 items.push(Item { a: a.into(), b: "'skipped".into(), rep: None, probe: false });
                 items.push(probe(pr));
+            }
+            21 => {
+                // a probe the compiler rejects: its failure has no frames of its own and must not show those of an
+                // earlier failed evaluation
+                tags.push("probe-failing-at-compile-time".into());
+                items.push(Item { a: fail_expr(rng), b: "'skipped".into(), rep: None, probe: false });
+                items.push(probe(*rng.pick(&["(if)", "(lambda)", "(set! 5 1)", "()", "(let ((x 1 2)) x)"])));
             }
             20 => {
                 // self-evaluating and trivial forms after a failure
